@@ -96,10 +96,17 @@ func (c14) Batch(seed uint64, wid, batch, count int, deadline time.Time, emit fu
 			smp, _ := json.Marshal(map[string]interface{}{"scenario": sc, "decisions": clipDecisions(res.Decisions), "outcomes": res.Outcomes})
 			rec.Samples = append(rec.Samples, smp)
 		}
+		if res.DecOverflow {
+			c["decision_buffer_overflow_runs"]++
+		}
 		if res.Viol != nil {
-			sc.Sim.Sched = simrt.SchedReplay
-			sc.Sim.Decisions = res.Decisions
-			sc.Sim.Points = nil
+			if !res.DecOverflow {
+				// explicit schedule; a run with more switches than the buffer records is
+				// replayed from its seeded schedule source instead
+				sc.Sim.Sched = simrt.SchedReplay
+				sc.Sim.Decisions = res.Decisions
+				sc.Sim.Points = nil
+			}
 			cs, _ := json.Marshal(c14Case{sc})
 			rf := &ReplayFile{Case: cs, TZ: tzEnv()}
 			if i > 0 {
